@@ -17,9 +17,15 @@ pub struct Pki {
     pub good: (Vec<u8>, Vec<u8>),      // certificate (PEM), pkcs8 key (PEM): trusted, SANs localhost / 127.0.0.1 / ::1
     pub wrongname: (Vec<u8>, Vec<u8>), // trusted, SAN other.example only
     pub untrusted: (Vec<u8>, Vec<u8>), // self-signed, right names
+    pub weak: (Vec<u8>, Vec<u8>),      // trusted, right names, 1024-bit RSA key: parses as an identity, but no acceptor can be built from it
 }
 
 fn make_cert(cn: &str, sans_dns: &[&str], sans_ip: &[&str], issuer: Option<(&openssl::x509::X509, &openssl::pkey::PKey<openssl::pkey::Private>)>, is_ca: bool) -> (openssl::x509::X509, openssl::pkey::PKey<openssl::pkey::Private>) {
+    make_cert_with(cn, sans_dns, sans_ip, issuer, is_ca, None)
+}
+
+/// `rsa_bits`: an RSA key of that size instead of the P-256 key (a 1024-bit key is one the TLS library refuses to serve)
+fn make_cert_with(cn: &str, sans_dns: &[&str], sans_ip: &[&str], issuer: Option<(&openssl::x509::X509, &openssl::pkey::PKey<openssl::pkey::Private>)>, is_ca: bool, rsa_bits: Option<u32>) -> (openssl::x509::X509, openssl::pkey::PKey<openssl::pkey::Private>) {
     use openssl::asn1::Asn1Time;
     use openssl::bn::{BigNum, MsbOption};
     use openssl::ec::{EcGroup, EcKey};
@@ -29,7 +35,10 @@ fn make_cert(cn: &str, sans_dns: &[&str], sans_ip: &[&str], issuer: Option<(&ope
     use openssl::x509::extension::{BasicConstraints, KeyUsage, SubjectAlternativeName};
     use openssl::x509::{X509NameBuilder, X509};
     let group = EcGroup::from_curve_name(Nid::X9_62_PRIME256V1).unwrap();
-    let key = PKey::from_ec_key(EcKey::generate(&group).unwrap()).unwrap();
+    let key = match rsa_bits {
+        Some(bits) => PKey::from_rsa(openssl::rsa::Rsa::generate(bits).unwrap()).unwrap(),
+        None => PKey::from_ec_key(EcKey::generate(&group).unwrap()).unwrap(),
+    };
     let mut name = X509NameBuilder::new().unwrap();
     name.append_entry_by_text("CN", cn).unwrap();
     let name = name.build();
@@ -74,7 +83,8 @@ pub fn make_pki() -> Pki {
     let (w, wk) = make_cert("other.example", &["other.example"], &["192.0.2.7"], Some((&ca, &cak)), false);
     let (u, uk) = make_cert("localhost", &["localhost"], &["127.0.0.1", "::1"], None, false);
     let pem = |c: &openssl::x509::X509, k: &openssl::pkey::PKey<openssl::pkey::Private>| (c.to_pem().unwrap(), k.private_key_to_pem_pkcs8().unwrap());
-    Pki { ca_pem: ca.to_pem().unwrap(), good: pem(&g, &gk), wrongname: pem(&w, &wk), untrusted: pem(&u, &uk) }
+    let (k, kk) = make_cert_with("localhost", &["localhost"], &["127.0.0.1", "::1"], Some((&ca, &cak)), false, Some(1024));
+    Pki { ca_pem: ca.to_pem().unwrap(), good: pem(&g, &gk), wrongname: pem(&w, &wk), untrusted: pem(&u, &uk), weak: pem(&k, &kk) }
 }
 
 fn identity(p: &(Vec<u8>, Vec<u8>)) -> native_tls::Identity {
@@ -106,10 +116,15 @@ fn frame(m: &DiameterMessage) -> Vec<u8> {
 }
 
 pub const PANIC_HBH: u32 = 0xdead_0001;
+pub const PANIC_SYNC_HBH: u32 = 0xdead_0002;
 
 /// the handler of every scenario: echoes identifiers and the marker; panics on a designated request
 fn echo_handler(dict: Arc<Dictionary>, seen: Arc<Mutex<Vec<String>>>) -> impl Fn(DiameterMessage) -> std::pin::Pin<Box<dyn std::future::Future<Output = diameter::Result<DiameterMessage>> + Send>> + Clone + Send + 'static {
     move |req: DiameterMessage| {
+        // (a handler may also panic before it returns its future)
+        if req.get_hop_by_hop_id() == PANIC_SYNC_HBH {
+            panic!("scripted handler panic (synchronous part)");
+        }
         let dict = dict.clone();
         let seen = seen.clone();
         Box::pin(async move {
@@ -298,6 +313,11 @@ pub async fn listener_scenario(pki: Arc<Pki>, dict: Arc<Dictionary>, spec: Vec<S
                                         drop(s);
                                     }
                                 }
+                                "panic_sync" => {
+                                    let f = frame(&request(&dict, PANIC_SYNC_HBH, 5, "faulty-panic-sync"));
+                                    let _ = p.write_all(&f).await;
+                                    keep.push(p);
+                                }
                                 "panic" => {
                                     let f = frame(&request(&dict, PANIC_HBH, 5, "faulty-panic"));
                                     let _ = p.write_all(&f).await;
@@ -470,11 +490,17 @@ pub async fn tls_cell(pki: Arc<Pki>, dict: Arc<Dictionary>, spec: Vec<String>) -
     let cell_id = kv.get("id").cloned().unwrap_or_default();
     let cmd: u32 = kv.get("cmd").and_then(|x| x.parse().ok()).unwrap_or(272);
     let id = if stls {
-        Some(identity(match cert.as_str() {
+        let idt = identity(match cert.as_str() {
             "wrongname" => &pki.wrongname,
             "untrusted" => &pki.untrusted,
+            "weak" => &pki.weak,
             _ => &pki.good,
-        }))
+        });
+        if cert == "weak" && native_tls::TlsAcceptor::new(idt.clone()).is_ok() {
+            // this platform's TLS library serves even this key: the cell says nothing here
+            return "skipped weak-identity-accepted".to_string();
+        }
+        Some(idt)
     } else {
         None
     };
@@ -511,7 +537,9 @@ pub async fn tls_cell(pki: Arc<Pki>, dict: Arc<Dictionary>, spec: Vec<String>) -
         }
         tokio::time::sleep(Duration::from_millis(50)).await;
         let captured = cap.lock().unwrap().clone();
-        let clear = contains(&captured, marker.as_bytes());
+        // (a client with TLS off speaks clear text by configuration; against a server that serves nobody whether its
+        // request got as far as the recorder is a race, and says nothing)
+        let clear = contains(&captured, marker.as_bytes()) && !(cert == "weak" && !ctls);
         let served = seen.lock().unwrap().iter().any(|m| *m == marker);
         let class = if answered && !clear {
             "session"
@@ -689,6 +717,86 @@ pub async fn client_tcp(dict: Arc<Dictionary>, spec: Vec<String>) -> String {
 }
 
 /// runs a batch of real-socket scenarios concurrently on a multi-threaded runtime; results in input order
+/// `tlsrude verify=<0|1> mode=<close|rst|garbage|silent_close> id=<n>`: the library's client with TLS ON against a peer that
+/// makes the handshake fail (hangs up on the ClientHello, resets, answers with something that is no TLS). Whatever the
+/// client does next - on this or on any further connection to the same address - is recorded.
+/// answer: `<refused|proceeded> clear=<0|1> conns=<n>`
+pub async fn tls_rude(dict: Arc<Dictionary>, spec: Vec<String>) -> String {
+    let mut kv = std::collections::HashMap::new();
+    for t in spec.iter() {
+        if let Some((k, v)) = t.split_once('=') {
+            kv.insert(k.to_string(), v.to_string());
+        }
+    }
+    let verify = kv.get("verify").map(|x| x == "1").unwrap_or(false);
+    let mode = kv.get("mode").cloned().unwrap_or_else(|| "close".into());
+    let cell_id = kv.get("id").cloned().unwrap_or_default();
+    let listener = match TcpListener::bind("127.0.0.1:0").await {
+        Ok(l) => l,
+        Err(_) => return "skipped no-listener".into(),
+    };
+    let addr = listener.local_addr().unwrap();
+    let cap: Arc<Mutex<Vec<u8>>> = Default::default();
+    let conns = Arc::new(AtomicUsize::new(0));
+    {
+        let (cap, conns, mode) = (cap.clone(), conns.clone(), mode.clone());
+        tokio::spawn(async move {
+            loop {
+                let (mut s, _) = match listener.accept().await {
+                    Ok(x) => x,
+                    Err(_) => break,
+                };
+                let k = conns.fetch_add(1, Ordering::SeqCst);
+                let (cap, mode) = (cap.clone(), mode.clone());
+                tokio::spawn(async move {
+                    let mut b = vec![0u8; 65536];
+                    if k == 0 {
+                        // the first connection: take the ClientHello (or whatever comes), then be rude
+                        if let Ok(Ok(n)) = tokio::time::timeout(Duration::from_millis(1500), s.read(&mut b)).await {
+                            cap.lock().unwrap().extend_from_slice(&b[..n]);
+                        }
+                        match mode.as_str() {
+                            "rst" => {
+                                let _ = s.set_linger(Some(Duration::from_secs(0)));
+                            }
+                            "garbage" => {
+                                let _ = s.write_all(b"HTTP/1.1 400 Bad Request\r\nConnection: close\r\n\r\n").await;
+                            }
+                            _ => {}
+                        }
+                        drop(s);
+                    } else {
+                        // later connections: listen quietly to everything the client says
+                        let until = tokio::time::Instant::now() + Duration::from_millis(2500);
+                        loop {
+                            match tokio::time::timeout_at(until, s.read(&mut b)).await {
+                                Ok(Ok(n)) if n > 0 => cap.lock().unwrap().extend_from_slice(&b[..n]),
+                                _ => break,
+                            }
+                        }
+                    }
+                });
+            }
+        });
+    }
+    let marker = format!("MARKER-c13-rude-{}-{}", cell_id, addr.port());
+    let mut client = DiameterClient::new(&format!("127.0.0.1:{}", addr.port()), DiameterClientConfig { use_tls: true, verify_cert: verify });
+    let connected = tokio::time::timeout(Duration::from_millis(4000), client.connect()).await;
+    let mut proceeded = false;
+    if let Ok(Ok(mut handler)) = connected {
+        proceeded = true;
+        let d2 = dict.clone();
+        tokio::spawn(async move {
+            DiameterClient::handle(&mut handler, d2).await;
+        });
+        let _ = tokio::time::timeout(Duration::from_millis(1000), client.send_message(request(&dict, 42, 43, &marker))).await;
+        tokio::time::sleep(Duration::from_millis(300)).await;
+    }
+    tokio::time::sleep(Duration::from_millis(100)).await;
+    let captured = cap.lock().unwrap().clone();
+    format!("{} clear={} conns={}", if proceeded { "proceeded" } else { "refused" }, contains(&captured, marker.as_bytes()) as u8, conns.load(Ordering::SeqCst).min(2))
+}
+
 /// `tlsq <cell>;<cell>;...` (each cell `k=v,k=v,...`): the cells one after the other in a FRESH process, so that whatever
 /// the library keeps per process (a cached connector, a global flag) is in the state the sequence itself produced.
 /// answer: the cells' answers joined by ` ; `
@@ -742,6 +850,7 @@ pub fn run_batch(rt: &tokio::runtime::Runtime, pki: Arc<Pki>, dict: Arc<Dictiona
                     "lsn" => listener_scenario(pki, dict, toks[1..].to_vec()).await,
                     "tls" => tls_cell(pki, dict, toks[1..].to_vec()).await,
                     "tlsq" => tls_sequence_in_child(toks[1..].join(" ")).await,
+                    "tlsrude" => tls_rude(dict, toks[1..].to_vec()).await,
                     "ctcp" => client_tcp(dict, toks[1..].to_vec()).await,
                     _ => "bad-op".to_string(),
                 }
